@@ -89,12 +89,15 @@ pub trait Metadata {
     }
 
     /// Returns duration of file
+    ///
+    /// `None` if the total number of samples is unknown
+    /// or the sample rate is 0 (a non-audio stream)
     fn duration(&self) -> Option<std::time::Duration> {
         const NANOS_PER_SEC: u64 = 1_000_000_000;
 
         let sample_rate = u64::from(self.sample_rate());
 
-        self.total_samples().map(|s| {
+        self.total_samples().filter(|_| sample_rate > 0).map(|s| {
             std::time::Duration::new(
                 s / sample_rate,
                 u32::try_from(((s % sample_rate) * NANOS_PER_SEC) / sample_rate)
